@@ -41,6 +41,30 @@ static int wl_versions_apply(ldb_versions_t *vset, ldb_edit_t *edit, ldb_mutex_t
 #include "util/env.h"
 #include "u_cmp.h"
 
+/* A comparator that is not injective on byte strings: ASCII letters compare case-insensitively ("Key" and "KEY" are one
+ * user key).  The model works on class representatives: every user key this harness prints is folded to lower case first
+ * (print_key), and the model then runs with the bytewise comparator over the representatives -- which is exactly the order
+ * this comparator induces on the classes. */
+static int g_fold = 0;
+static uint8_t fold_byte(uint8_t c) { return (g_fold && c >= 'A' && c <= 'Z') ? (uint8_t)(c + 32) : c; }
+static int ci_compare(const ldb_comparator_t *c, const ldb_slice_t *x, const ldb_slice_t *y) {
+  size_t n = x->size < y->size ? x->size : y->size, i; (void)c;
+  for (i = 0; i < n; i++) {
+    uint8_t a = x->data[i], b = y->data[i];
+    if (a >= 'A' && a <= 'Z') a += 32;
+    if (b >= 'A' && b <= 'Z') b += 32;
+    if (a != b) return a < b ? -1 : 1;
+  }
+  return x->size < y->size ? -1 : (x->size > y->size ? 1 : 0);
+}
+static const ldb_comparator_t ci_comparator = { "verif.CaseFold", ci_compare, NULL, NULL, NULL, NULL };
+static void print_key(FILE *out, const void *p, size_t n) {
+  const uint8_t *b = p; size_t i;
+  if (!g_fold) { print_hex(out, p, n); return; }
+  if (n == 0) { fputc('-', out); return; }
+  for (i = 0; i < n; i++) fprintf(out, "%02x", fold_byte(b[i]));
+}
+
 #define MAXF 64
 #define MAXL 8192
 
@@ -86,7 +110,7 @@ static void dump_table_inner(FILE *out, const char *dbname, const ldb_dbopt_t *o
     if (k.size < 8) { fprintf(out, "%sBADKEY", first ? "" : ","); first = 0; continue; }
     tr = ldb_fixed64_decode((const uint8_t *)k.data + k.size - 8);
     if (!first) fputc(',', out); first = 0;
-    print_hex(out, k.data, k.size - 8);
+    print_key(out, k.data, k.size - 8);
     fprintf(out, ":%llu:%d:", (unsigned long long)(tr >> 8), (int)(tr & 0xff));
     val_token(out, v.data, v.size);
   }
@@ -100,7 +124,7 @@ static void dump_table_inner(FILE *out, const char *dbname, const ldb_dbopt_t *o
 
 static void print_ikey_parts(FILE *out, const ldb_buffer_t *ik) {
   if (ik->size < 8) { fprintf(out, "BAD:0"); return; }
-  print_hex(out, ik->data, ik->size - 8);
+  print_key(out, ik->data, ik->size - 8);
   fprintf(out, ":%llu", (unsigned long long)ldb_fixed64_decode(ik->data + ik->size - 8));
 }
 
@@ -186,7 +210,7 @@ static void dump_mem(const char *tag, ldb_memtable_t *mt) {
     if (k.size < 8) continue;
     tr = ldb_fixed64_decode((const uint8_t *)k.data + k.size - 8);
     if (!first) fputc(',', stdout); first = 0;
-    print_hex(stdout, k.data, k.size - 8);
+    print_key(stdout, k.data, k.size - 8);
     printf(":%llu:%d:", (unsigned long long)(tr >> 8), (int)(tr & 0xff));
     val_token(stdout, v.data, v.size);
   }
@@ -202,7 +226,7 @@ static void dump_internal(ldb_t *db) {
     if (k.size < 8) continue;
     tr = ldb_fixed64_decode((const uint8_t *)k.data + k.size - 8);
     if (!first) fputc(',', stdout); first = 0;
-    print_hex(stdout, k.data, k.size - 8);
+    print_key(stdout, k.data, k.size - 8);
     printf(":%llu:%d:", (unsigned long long)(tr >> 8), (int)(tr & 0xff));
     val_token(stdout, v2.data, v2.size);
   }
@@ -257,12 +281,12 @@ static int parse_opts(char **f, int nf, int from) {
   g_opt.create_if_missing = 1;
   g_opt.write_buffer_size = 64 << 10;
   g_opt.compression = LDB_NO_COMPRESSION;
-  g_cmpname = "bw";
+  g_cmpname = "bw"; g_fold = 0;
   for (i = from; i < nf; i++) {
     char *eq = strchr(f[i], '='); long v;
     if (!eq) return 0;
     *eq = 0; v = atol(eq + 1);
-    if (!strcmp(f[i], "cmp")) { const ldb_comparator_t *c = parse_cmp(eq + 1); if (!c) return 0; g_opt.comparator = c; g_cmpname = !strcmp(eq + 1, "rev") ? "rev" : (!strcmp(eq + 1, "len") ? "len" : "bw"); }
+    if (!strcmp(f[i], "cmp")) { const ldb_comparator_t *c = !strcmp(eq + 1, "ci") ? &ci_comparator : parse_cmp(eq + 1); if (!c) return 0; g_opt.comparator = c; g_fold = c == &ci_comparator; g_cmpname = !strcmp(eq + 1, "rev") ? "rev" : (!strcmp(eq + 1, "len") ? "len" : (g_fold ? "ci" : "bw")); }
     else if (!strcmp(f[i], "wbuf")) g_opt.write_buffer_size = v;
     else if (!strcmp(f[i], "block")) g_opt.block_size = v;
     else if (!strcmp(f[i], "restart")) g_opt.block_restart_interval = v;
@@ -294,8 +318,8 @@ static void emit_ops_line(char *ops, const char *tag) {
   for (i = 0; i < n; i++) {
     char *pf[4]; int np = split_on(of[i], ':', pf, 4);
     if (i) fputc(',', stdout);
-    if (np == 3) { parse_bytes(pf[1], &g_a); parse_bytes(pf[2], &g_b); printf("p:"); print_hex(stdout, g_a.p, g_a.n); fputc(':', stdout); val_token(stdout, g_b.p, g_b.n); }
-    else if (np == 2) { parse_bytes(pf[1], &g_a); printf("d:"); print_hex(stdout, g_a.p, g_a.n); }
+    if (np == 3) { parse_bytes(pf[1], &g_a); parse_bytes(pf[2], &g_b); printf("p:"); print_key(stdout, g_a.p, g_a.n); fputc(':', stdout); val_token(stdout, g_b.p, g_b.n); }
+    else if (np == 2) { parse_bytes(pf[1], &g_a); printf("d:"); print_key(stdout, g_a.p, g_a.n); }
   }
   fputc('\n', stdout);
 }
@@ -349,7 +373,7 @@ static void iter_report(ldb_iter_t *it, uint64_t seq, const char *op) {
   printf("it %llu %s -> ", (unsigned long long)seq, op);
   if (ldb_iter_valid(it)) {
     ldb_slice_t k = ldb_iter_key(it), v = ldb_iter_value(it);
-    printf("1 "); print_hex(stdout, k.data, k.size); fputc(' ', stdout); val_token(stdout, v.data, v.size);
+    printf("1 "); print_key(stdout, k.data, k.size); fputc(' ', stdout); val_token(stdout, v.data, v.size);
   } else printf("0 - -");
   printf(" %d\n", ldb_iter_status(it));
 }
@@ -381,12 +405,12 @@ static void run_iter_ops(ldb_iter_t *it, uint64_t seq, char *ops, int id) {
       else if (!strcmp(op, "LE")) ldb_iter_seek_le(it, &k);
       else if (!strcmp(op, "LT")) ldb_iter_seek_lt(it, &k);
       else { printf("err bad iter op\n"); continue; }
-      { int len = snprintf(opcopy, sizeof(opcopy), "%s:", op); size_t j; for (j = 0; j < g_a.n && len < 590; j++) len += snprintf(opcopy + len, sizeof(opcopy) - len, "%02x", g_a.p[j]); if (g_a.n == 0) snprintf(opcopy + len, sizeof(opcopy) - len, "-"); }
+      { int len = snprintf(opcopy, sizeof(opcopy), "%s:", op); size_t j; for (j = 0; j < g_a.n && len < 590; j++) len += snprintf(opcopy + len, sizeof(opcopy) - len, "%02x", fold_byte(g_a.p[j])); if (g_a.n == 0) snprintf(opcopy + len, sizeof(opcopy) - len, "-"); }
     }
     printf("%s %llu %s -> ", tag, (unsigned long long)seq, opcopy);
     if (ldb_iter_valid(it)) {
       ldb_slice_t kk = ldb_iter_key(it), v = ldb_iter_value(it);
-      printf("1 "); print_hex(stdout, kk.data, kk.size); fputc(' ', stdout); val_token(stdout, v.data, v.size);
+      printf("1 "); print_key(stdout, kk.data, kk.size); fputc(' ', stdout); val_token(stdout, v.data, v.size);
     } else printf("0 - -");
     printf(" %d\n", ldb_iter_status(it));
   }
@@ -491,7 +515,7 @@ static void crash_points(int from, int to, int stride, const char *vars, const c
               snprintf(vb, sizeof(vb), "o%d-%d-%d", n, v, j);
               ks = ldb_slice(okey[j], olen[j]); vs = ldb_string(vb);
               wrc = ldb_put(db2, &ks, &vs, &wo);
-              printf("%s", j ? "," : ""); print_hex(stdout, okey[j], olen[j]);
+              printf("%s", j ? "," : ""); print_key(stdout, okey[j], olen[j]);
             }
             if (no == 0) printf(".");
           }
@@ -641,7 +665,7 @@ static void handle(char *line) {
       for (dirn ? ldb_iter_last(it) : ldb_iter_first(it); ldb_iter_valid(it); dirn ? ldb_iter_prev(it) : ldb_iter_next(it)) {
         ldb_slice_t k = ldb_iter_key(it), v = ldb_iter_value(it);
         if (!first) fputc(',', stdout); first = 0;
-        print_hex(stdout, k.data, k.size); fputc('=', stdout); val_token(stdout, v.data, v.size);
+        print_key(stdout, k.data, k.size); fputc('=', stdout); val_token(stdout, v.data, v.size);
       }
       if (first) fputc('.', stdout);
       printf(" status=%d\n", ldb_iter_status(it));
@@ -649,7 +673,9 @@ static void handle(char *line) {
     }
     after_op();
   } else if (nf == 2 && !strcmp(f[0], "nowait")) {
-    g_nowait = atoi(f[1]); g_slow_tables = g_nowait;
+    /* 1: table writes and MANIFEST syncs are slow; 2: only MANIFEST syncs are slow (level 0 does not pile up, so the
+       writer is not stopped while a compaction installs its result) */
+    g_nowait = atoi(f[1]) != 0; g_slow_tables = atoi(f[1]);
     printf("loosemode %d\n", g_nowait);
   } else if (nf == 2 && !strcmp(f[0], "verify")) {
     g_verify = atoi(f[1]);
@@ -692,8 +718,8 @@ static void handle(char *line) {
     g_journal = !strcmp(f[1], "on");
     if (!strcmp(f[1], "reset")) jreset();
   } else if (nf >= 2 && !strcmp(f[0], "fault")) {
-    /* fault <k|-1> [errno] [persistent:0|1] [partial:0|1] [kinds] : the k-th faultable call from now on fails */
-    g_fault_count = 0; g_fault_fired = 0; memset(g_kind_count, 0, sizeof(g_kind_count));
+    /* fault <k|-1> [errno] [persistent:0|1] [partial:0|1|2 (2 = short count, then the retry fails)] [kinds] : the k-th faultable call from now on fails */
+    g_short_fd = -1; g_fault_count = 0; g_fault_fired = 0; memset(g_kind_count, 0, sizeof(g_kind_count));
     g_fault_at = atol(f[1]);
     g_fault_errno = nf > 2 ? atoi(f[2]) : 28;
     g_fault_persistent = nf > 3 ? atoi(f[3]) : 0;
@@ -730,7 +756,7 @@ static void handle(char *line) {
     ro.verify_checksums = g_verify;
     k = ldb_slice(g_a.p, g_a.n);
     rc = ldb_get(g_db, &k, &v, &ro);
-    printf("get "); print_hex(stdout, g_a.p, g_a.n); printf(" %llu ", (unsigned long long)seq);
+    printf("get "); print_key(stdout, g_a.p, g_a.n); printf(" %llu ", (unsigned long long)seq);
     if (rc == LDB_OK) { val_token(stdout, v.data, v.size); ldb_free(v.data); }
     else if (rc == LDB_NOTFOUND) printf("notfound");
     else printf("err:%d", rc);
